@@ -2,11 +2,12 @@
 import lanes
 import lanewords
 from props import c01_root
+from props import c01_slane
 
 PROPERTIES_FILE = "Properties/Properties_C01.v"
-COQ_DEPS = ["Proofs/Lane_iface.vo", "Proofs/SLane_progress.vo", "Proofs/SLane_measure.vo"] + ["Model/LaneWords.vo"] + list(c01_root.COQ_DEPS) + ["Model/LaneWords.vo"]
-EXTRA_PROPERTIES_FILES = ["Properties/Properties_C01_slane.v", c01_root.PROPERTIES_FILE]
-GEN_MODULES = ["Gen_dqstate", "Gen_lanesites", "Gen_once"] + list(c01_root.GEN_MODULES)
+COQ_DEPS = ["Proofs/Lane_iface.vo", "Proofs/SLane_progress.vo", "Proofs/SLane_measure.vo"] + ["Model/LaneWords.vo"] + list(c01_root.COQ_DEPS) + ["Model/LaneWords.vo"] + list(c01_slane.COQ_DEPS)
+EXTRA_PROPERTIES_FILES = ["Properties/Properties_C01_slane.v", c01_slane.PROPERTIES_FILE, c01_root.PROPERTIES_FILE]
+GEN_MODULES = ["Gen_dqstate", "Gen_lanesites", "Gen_once", "Gen_fields"] + list(c01_root.GEN_MODULES)
 LEVEL = "proof"
 TRUSTED = [
     "PARTIAL: (a) word-level theorems about the dq_state transition bodies / atomic site lists translated from the source on every "
@@ -25,13 +26,16 @@ ASSUMPTIONS = ["the stress oracle explores the schedules the OS and the perturba
 
 TRUSTED += ["root queue / thread pool part (Properties_C01_root.v): " + t for t in c01_root.TRUSTED]
 ASSUMPTIONS += list(c01_root.ASSUMPTIONS)
+TRUSTED += ["serial-lane trace conformance and global replay (Properties_C01_slanet.v, lib/props/c01_slane.py): " + t for t in c01_slane.TRUSTED]
+ASSUMPTIONS += list(c01_slane.ASSUMPTIONS)
 
 
 def correspond(ctx):
     return lanes.merge([lanes.run_part("lanes", lambda c: lanes.run(c, "C01"), ctx),
                         lanes.run_part("words", lambda c: lanewords.run(c, "C01"), ctx),
-                        lanes.run_part("root", c01_root.correspond, ctx)])
+                        lanes.run_part("root", c01_root.correspond, ctx),
+                        lanes.run_part("slane", lambda c: c01_slane.correspond(c, tag="c01_slane"), ctx)])
 
 
 def replay(ctx, obj):
-    return lanes.replay_parts(ctx, obj, {"lanes": lanes.replay, "root": c01_root.replay})
+    return lanes.replay_parts(ctx, obj, {"lanes": lanes.replay, "root": c01_root.replay, "slane": c01_slane.replay})
